@@ -94,7 +94,7 @@ Resp(a, kind, m) ==
    user |-> <<0, 0>>, key |-> <<a, gen[a]>>, prio |-> 0, tbc |-> 0, copy |-> 0, nom |-> 0]
 Txn(tid, r, uc) == [tid |-> tid, dst |-> r, uc |-> uc, at |-> now, nom |-> 0]
 Expire(S) == {x \in S : now - x.at < H}
-Addrs == {"a1", "a2", "b1", "b2", "n1", "x9"}
+Addrs == {"a1", "a2", "b1", "b2", "n1", "n2", "x9"}
 Never == [x \in Addrs |-> 0 - 1]
 RTyp(a, r) == remotes[a][RemIdx(remotes[a], r)].typ
 Nominatable(a, p) == now - selStart[a] >= Acc["host"] /\ now - selStart[a] >= Acc[p.rt]
@@ -322,7 +322,8 @@ Forged(b) ==
         \* 0: another string altogether; a negative number: a string built from that generation's ufrag that is not it
         \* (extended, truncated, an extra segment) - a USERNAME that resembles the right one is as wrong as any other
         us \in {<<gen[b], rgen[b]>>, <<gen[b], 0>>, <<0, rgen[b]>>, <<0 - gen[b], rgen[b]>>, <<gen[b], 0 - rgen[b]>>, <<0 - gen[b], 0 - rgen[b]>>},
-        ky \in {<<b, gen[b]>>, <<peer, rgen[b]>>, <<peer, 0>>, <<"X", 0>>}}
+        \* the key the MESSAGE-INTEGRITY attribute was computed with; "none": the message carries no such attribute at all
+        ky \in {<<b, gen[b]>>, <<peer, rgen[b]>>, <<peer, 0>>, <<"X", 0>>, <<"none", 0>>}}
 Inject(m) == inj < MaxInject /\ inj' = inj + 1 /\ net' = net (+) One(m) /\ out' = EmptyBag
              /\ UNCHANGED <<role, gen, rgen, locals, remotes, pairs, nextId, pend, sel, nomPair, conn, nextTid, ticks, loss, dup, rst, answered, timev, nomv>>
 
